@@ -18,7 +18,10 @@ pub struct SourceFault {
 
 #[derive(Serialize, Deserialize, Clone, Debug, PartialEq)]
 pub struct SourceSpec {
-    /// explicit leading bytes of the stream
+    /// this many zero bytes come first (a stuck-at-zero source; not materialised)
+    #[serde(default)]
+    pub zero_run: usize,
+    /// explicit bytes of the stream after the zero run
     pub prefix: Vec<u8>,
     /// continuation: byte p = low byte of H(key, p)
     pub key: u64,
@@ -28,6 +31,10 @@ pub struct SourceSpec {
 impl SourceSpec {
     #[inline]
     pub fn byte(&self, p: usize) -> u8 {
+        if p < self.zero_run {
+            return 0;
+        }
+        let p = p - self.zero_run;
         if p < self.prefix.len() {
             self.prefix[p]
         } else {
